@@ -152,6 +152,10 @@ def check_total(ctx, q, model_ln, datasets):
                     why = "is cyclic"
                 except Exception as ex:  # noqa
                     why = "cannot be unparsed/compiled: %s: %s" % (type(ex).__name__, ex)
+            if not why:
+                extra = sc.free_names(out) - sc.free_names(q) - {"Select", "Where", "SelectMany", "First"}
+                if extra:
+                    why = "is not well-scoped any more (unbound name(s) %s)" % sorted(extra)
             if why:
                 failed = True
                 ctx.fail("failing-input", "simplify(%s) %s: %s" % (bridge.dump(q), why, ast.dump(out)[:300]),
@@ -226,9 +230,31 @@ def shared_selector_family():
     return out
 
 
+def out_of_range_family():
+    """A constant index beyond the end of a package that reaches its literal only through substitution, at every depth of
+    lambdas that stay in the tree below a lambda that is being inlined: the index error (or whatever else happens) must
+    not leave a half-rewritten query behind."""
+    out = []
+    for pk, n in (("(e.a, e.b)", 2), ("[e.jets, e.met]", 2), ("(e.jets, e.trk, e.met)", 3)):
+        for k in (n, -n - 1, n + 5):
+            bad = "t[%d]" % k
+            for op in ("Select", "Where", "SelectMany"):
+                src = "Select(ds, lambda e: %s)" % pk
+                inner_src = "t[0]" if "jets" in pk else "ds"
+                out.append("%s(%s, lambda t: %s)" % (op, src, bad))
+                out.append("%s(%s, lambda t: Select(%s, lambda q: q + %s))" % (op, src, inner_src, bad))
+                out.append("%s(%s, lambda t: Where(%s, lambda q: q > %s[0]))" % (op, src, inner_src, bad))
+                out.append("%s(%s, lambda t: Select(%s, lambda q: Select(%s, lambda r: r + q + %s)))" % (op, src, inner_src, inner_src, bad))
+                out.append("%s(%s, lambda t: (lambda u: Select(%s, lambda q: q + u[%d]))(t))" % (op, src, inner_src, k))
+                out.append("%s(%s(%s, lambda t: t), lambda t: Select(%s, lambda q: (q, %s)))" % (op, "Where" if op != "Where" else "Select", src, inner_src, bad))
+    return out
+
+
 def run(ctx):
     datasets = sc.make_datasets(random.Random(20260927))
     qs = []
+    for s in out_of_range_family():
+        qs.append(sc.parse(s))
     for s in shared_selector_family():
         qs.append(sc.parse(s))
     for s in ODD + c02.CORPUS:
